@@ -377,8 +377,8 @@ def JOBS(tier):
     jobs = []
     for kind in range(len(KINDS)):
         jobs.append({"func": "c11_frame", "timeout": t, "path_timeout": 60, "samples": 1,
-                     "part": {"kinds": [kind], "maxlen": 2 if quick else 3, "maxblock": 3 if quick else 4,
-                              "alpha": "a\n\u20ac" if quick else ALPHABET,
+                     "part": {"kinds": [kind], "maxlen": 2 if (quick or kind in (9, 10, 14, 15)) else 3, "maxblock": 3 if quick else 4,
+                              "alpha": "a\n\u20ac" if quick else "a\r\n\x00\u20ac",
                               "methods": list(range(len(METHODS))) if (kind == 0 or not quick) else [0, 6, 9],
                               "hdrs": "few" if quick else True}})
     for front in (0, 1):
@@ -394,7 +394,7 @@ EVIDENCE = {
                         "<= 2 characters over {a, LF, euro} x chunk cut points x start offset x blocksize 1..3 x {GET, POST, post} "
                         "(all 11 methods for body-less) x chunked flag x caller framing header in 3 casings; re-sending: 10 histories x 16 "
                         "kinds x pool / PoolManager",
-               "thorough": "content <= 3 characters, all 11 methods, blocksize <= 4"},
+               "thorough": "content <= 3 characters over {a, CR, LF, NUL, euro} (<= 2 for chunk lists), all 11 methods, blocksize <= 4, every casing of the caller framing header"},
     "outside": ["bodies larger than a few bytes (size classes around the 16 KiB default blocksize are represented by blocksize 1..4 "
                 "around contents of 0..9 bytes)", "HTTP/2 bodies"],
     "stubs": ["create_connection -> MemSock", "clock constant", "logging disabled"],
